@@ -87,6 +87,7 @@ type symCond struct {
 }
 
 type symPath struct {
+	reads     []symRead
 	innerStep string // "" ok; otherwise what the inner loop does to its counter
 	kind  string // back | exit | inner | panic
 	conds []symCond
@@ -122,10 +123,19 @@ type symState struct {
 	innerStep string
 	innerSeen bool
 	inLoop    bool // the scan loop has been entered on this path
+	reads     []symRead
+}
+
+// symRead: an element of the input read at an index, and how many of the
+// path's conditions had been decided when it was read.
+type symRead struct {
+	idx   symInt
+	nCond int
+	where string
 }
 
 func (s *symState) clone() *symState {
-	n := &symState{conds: append([]symCond(nil), s.conds...), innerStep: s.innerStep, innerSeen: s.innerSeen, inLoop: s.inLoop}
+	n := &symState{conds: append([]symCond(nil), s.conds...), innerStep: s.innerStep, innerSeen: s.innerSeen, inLoop: s.inLoop, reads: append([]symRead(nil), s.reads...)}
 	for _, f := range s.stack {
 		nf := &symFrame{fn: f.fn, env: make(map[ssa.Value]interface{}, len(f.env)), call: f.call, blk: f.blk, prev: f.prev, idx: f.idx, onPath: map[*ssa.BasicBlock]int{}, havoc: map[*ssa.BasicBlock]bool{}}
 		for k, v := range f.havoc {
@@ -539,7 +549,13 @@ func (ex *symExec) run(st *symState) {
 		case *ssa.UnOp:
 			f.env[x] = ex.unop(f, x)
 		case *ssa.IndexAddr:
-			f.env[x] = symOpaque(fmt.Sprintf("&%v[%v]", ex.eval(f, x.X), ex.eval(f, x.Index)))
+			base, idx := ex.eval(f, x.X), ex.eval(f, x.Index)
+			if bb, ok := base.(symBytes); ok && len(bb) == 1 && bb[0] == "B" && st.inLoop {
+				if ii, ok := idx.(symInt); ok {
+					st.reads = append(st.reads, symRead{ii, len(st.conds), ex.c.P.Pos(x.Pos())})
+				}
+			}
+			f.env[x] = symOpaque(fmt.Sprintf("&%v[%v]", base, idx))
 		case *ssa.Slice:
 			f.env[x] = ex.slice(f, x)
 		case *ssa.MakeSlice:
@@ -653,7 +669,7 @@ func (ex *symExec) run(st *symState) {
 				if !st.inLoop {
 					kind = "early" // returned before the scan loop was reached
 				}
-				ex.res.paths = append(ex.res.paths, symPath{kind: kind, conds: st.conds, ret: rv, where: ex.c.P.Pos(x.Pos())})
+				ex.res.paths = append(ex.res.paths, symPath{kind: kind, conds: st.conds, ret: rv, where: ex.c.P.Pos(x.Pos()), reads: st.reads})
 				return
 			}
 			st.stack = st.stack[:len(st.stack)-1]
@@ -694,7 +710,7 @@ func (ex *symExec) enter(st *symState, f *symFrame, b *ssa.BasicBlock) bool {
 			if !st.inLoop {
 				return false
 			}
-			ex.res.paths = append(ex.res.paths, symPath{kind: "back", conds: st.conds, next: vals, where: blockPos(ex.c, f.blk), innerStep: st.innerStep})
+			ex.res.paths = append(ex.res.paths, symPath{kind: "back", conds: st.conds, next: vals, where: blockPos(ex.c, f.blk), innerStep: st.innerStep, reads: st.reads})
 			return false
 		}
 		// first entry: whatever the input is here is called B from now on;
@@ -729,6 +745,7 @@ func (ex *symExec) enter(st *symState, f *symFrame, b *ssa.BasicBlock) bool {
 		}
 		st.conds = nil // what was decided before the loop does not concern the steps
 		st.innerStep, st.innerSeen = "", false
+		st.reads = nil
 		st.inLoop = true
 		first := 0
 		for i, ins := range b.Instrs {
@@ -1080,12 +1097,13 @@ func ruleC10sym(c *Ctx) []*report.Result {
 			switch {
 			case c.cmpOp == "<=" && c.pol && c.a.base == a.base && c.b.base == b.base && a.off-c.a.off <= b.off-c.b.off:
 				return true
-			case c.cmpOp == "<" && c.pol && c.a.base == a.base && c.b.base == b.base && a.off-c.a.off <= b.off-c.b.off-1:
+			case c.cmpOp == "<" && c.pol && c.a.base == a.base && c.b.base == b.base && a.off-c.a.off <= b.off-c.b.off+1:
+				// x+ca < y+cb  ==>  x+ca+1 <= y+cb
 				return true
 			case c.cmpOp == "<" && !c.pol && c.a.base == b.base && c.b.base == a.base && a.off-c.b.off <= b.off-c.a.off:
 				// !(b' < a')  ==  a' <= b'
 				return true
-			case c.cmpOp == "<=" && !c.pol && c.a.base == b.base && c.b.base == a.base && a.off-c.b.off <= b.off-c.a.off-1:
+			case c.cmpOp == "<=" && !c.pol && c.a.base == b.base && c.b.base == a.base && a.off-c.b.off <= b.off-c.a.off+1:
 				// !(b' <= a')  ==  a' < b'
 				return true
 			}
@@ -1120,6 +1138,17 @@ func ruleC10sym(c *Ctx) []*report.Result {
 	r.Check(res.init["RES"] == "B", "escape.InternalEscapeBytes / output starts as the input", pos0, "the output variable starts as "+res.init["RES"]+", want the scanned input (returned as is when nothing needs escaping)")
 	if v, ok := res.init["COPIED"]; ok {
 		r.Check(v == "false", "escape.InternalEscapeBytes / copied flag starts false", pos0, "the copied flag starts as "+v)
+	}
+	// every element of the input read inside the loop is within bounds by
+	// what the path had established when it was read
+	for _, p := range res.paths {
+		for _, rd := range p.reads {
+			pre := symPath{conds: p.conds}
+			if rd.nCond < len(p.conds) {
+				pre.conds = p.conds[:rd.nCond]
+			}
+			r.Check(leq(pre, symInt{rd.idx.base, rd.idx.off + 1}, symInt{base: "LEN"}), "escape.InternalEscapeBytes / read within bounds @"+rd.where, rd.where, fmt.Sprintf("B[%s] is read without %s < len(B) having been established before on that path: an index out of range inside printing", rd.idx, rd.idx))
+		}
 	}
 	nBack, nExit := 0, 0
 	for _, p := range res.paths {
